@@ -9,7 +9,9 @@ S=$(mktemp -d /var/tmp/mut.XXXXXX); trap 'rm -rf "$S"' EXIT
 rsync -a --exclude .git /repo/ "$S/repo/"
 (cd "$S/repo" && git apply --whitespace=nowarn "$DIFF") || { echo "apply failed"; exit 3; }
 if [ "${SKIP_TESTS:-}" != 1 ]; then
-  (cd "$S/repo" && go1.26.8 build ./... && go1.26.8 test -vet=off -count=1 ./... > "$S/tests.log" 2>&1) && T=pass || T=FAIL
+  # the repository's tests bind fixed TCP ports: run them in a private network namespace
+  (cd "$S/repo" && go1.26.8 build ./... && unshare -n sh -c "ip link set lo up; go1.26.8 test -vet=off -count=1 ./..." > "$S/tests.log" 2>&1) && T=pass || T=FAIL
+  if [ $T = FAIL ]; then (cd "$S/repo" && unshare -n sh -c "ip link set lo up; go1.26.8 test -vet=off -count=1 ./..." > "$S/tests.log" 2>&1) && T=pass; fi
 else T=skipped; fi
 VERIF_EVIDENCE_DIR="$S/ev" VERIF_REPLAY_DIR="$S/rp" VERIF_REPO="$S/repo" VERIF_SCRATCH="$S/build" /verif/check "$PROP" "$TIER" > "$S/check.log" 2>&1; RC=$?
 grep -E "^VIOLATION|^  sig:" "$S/check.log" | head -8 | cut -c1-200
